@@ -168,3 +168,17 @@ contract(A + "_findNextZeroCrossing", serves=["C18"], spec_module="spec.scalars"
                                    "result <= startTime + (len(samples) - 1) / frameRate)"),
                   ("none-iff-no-crossing", "(result is None) == (not exists(samples, lambda x: x == 0) and "
                                            "not exists(sign_changes(samples), lambda c: c))")])
+
+# ---- C20: pitch measures and the jump detector (statistics by definition: sum / len, population variance)
+contract("praatio.pitch_and_intensity.getPitchMeasures", serves=["C20"], spec_module="spec.scalars",
+         configs={"filterZeroFlag": [False, True], "window": [None, 3, 4]},
+         inputs=lambda S, cfg: dict(f0Values=S.list("f0Values", "real"), name=None, label=None,
+                                    medianFilterWindowSize=cfg["window"], filterZeroFlag=cfg["filterZeroFlag"]),
+         spec="spec.scalars.getPitchMeasures", frame=["f0Values"])
+
+# voiced tracks (every pitch > 0; a zero pitch divides by zero: known finding KF14), thresholds in (0, 1]
+contract("praatio.pitch_and_intensity.detectPitchErrors", serves=["C20"], spec_module="spec.scalars",
+         inputs=lambda S, cfg: dict(pitchList=S.list("pitchList", "pair", all="e[1] > 0"),
+                                    maxJumpThreshold=S.real("maxJumpThreshold"), tgToMark=None),
+         requires=["maxJumpThreshold != 0"],
+         spec="spec.scalars.detectPitchErrors", frame=["pitchList"])
